@@ -57,8 +57,8 @@ Print Assumptions C12_bounded_parallelism.
    owed by the holder of the pool lock) and that is off the idle list or marked `kicked`, or (after a submission by a
    foreign thread that found no thread to kick) the owner's thread_needed event posted / popped / owed while nobody is
    idle, started_threads < max_threads and the pool has not been put, so that its handler starts a thread (needed_wit of
-   MT/WorkMTSpec.v; API contract, guard of the put critical section in MT/WorkMT.v: iv_work_pool_put is not called in
-   that state with started_threads = 0 -- iv_work_pool_put / iv_work_event would free the pool with the item queued);
+   MT/WorkMTSpec.v; an iv_work_pool_put in that state with started_threads = 0 starts the thread itself, under the lock:
+   fix D10, /repo commit eb5cf18 -- before it the pool was freed with the item queued, see MT/WorkForeignPut.v);
    finished work always
    has the owner's event posted, popped, or owed; a shut-down pool without threads is about to be freed. *)
 Theorem C12_work_wakeup_invariant :
